@@ -60,7 +60,7 @@ def same(a, b):
 @st.composite
 def spelling_case(draw):
     L = draw(st.sampled_from(shipped.LIBS))
-    w = dict(WEIGHTS[L])
+    w = dict(WEIGHTS[L], special=3, polycyclic=1)
     smi = draw(molgen.mixed(w, metal='Ru' if L == 'XieGA2022' else 'Pt', max_heavy=draw(st.sampled_from([5, 8, 12, 20]))))
     return dict(kind='spellings', lib=L, smiles=smi, seed=draw(st.integers(0, 10 ** 6)), n=draw(st.sampled_from([6, 10, 20])))
 
@@ -109,6 +109,22 @@ def check_spellings(ctx, case):
                 what = 'correction-counts' if all('(' not in k for k in diff) else 'groups'
             ctx.fail('spelling-changes-result:%s:%s%s' % (what, 'Mol-input' if kind.startswith('Mol') else 'smiles', tag),
                      '[%s] %r gives %s but its %s spelling %s gives %s (diff %s)' % (L, sp[0][1], base, kind, shown, o, diff))
+    # the same Mol object handed over twice (and to a second scheme) must give the same answer and stay untouched
+    for kind, inp in inputs:
+        if not kind.startswith('Mol-object'):
+            continue
+        before = Chem.MolToSmiles(inp, canonical=False), inp.GetNumAtoms(), sorted(inp.GetAtomWithIdx(0).GetPropNames()) if inp.GetNumAtoms() else []
+        o1 = outcome(lib, inp)
+        o2 = outcome(lib, inp)
+        other = shipped.lib('BensonGA' if L != 'BensonGA' else 'PPY')
+        outcome(other, inp)
+        o3 = outcome(lib, inp)
+        ctx.count()
+        after = Chem.MolToSmiles(inp, canonical=False), inp.GetNumAtoms(), sorted(inp.GetAtomWithIdx(0).GetPropNames()) if inp.GetNumAtoms() else []
+        if not (same(o1, o2) and same(o1, o3) and same(base, o1)):
+            ctx.fail('same-Mol-object-twice-differs%s' % tag, '[%s] %s of %r: SMILES gives %s; the same Mol object again %s, again %s, after another scheme %s' % (L, kind, smi, base, o1, o2, o3))
+        elif before != after:
+            ctx.fail('input-Mol-object-modified', '[%s] %s of %r changed from %s to %s by GetDescriptors' % (L, kind, smi, before, after))
     # identical descriptors => identical estimates (sampled)
     if base[0] == 'ok' and case['seed'] % 4 == 0:
         m = _pg()
